@@ -5,8 +5,9 @@
 (*  evolve  : to_tensor() after evolution_step_ with a non-binding truncation, rescaled by ONE least-squares scalar and rounded; expected =    *)
 (*            PepsOps!ApplyOp(gate, registered previous state) exactly; reported truncation error and metric diagnostics within tolerance      *)
 (*  metric  : Hermiticity defect and smallest eigenvalue of bond_metric (units of 1e-12 of its norm) against TolMetric                         *)
-(*  cover   : sites an environment object really depends on (found by perturbing one PEPS tensor at a time) against the regions of EnvCover    *)
-EXTENDS TracePeps, PepsMeasure, EnvCover
+(*  cover   : sites an environment object really depends on (found by perturbing one PEPS tensor at a time) against the regions of EnvCover /  *)
+(*            the messages of BpCover after k recorded sweeps                                                                                 *)
+EXTENDS TracePeps, PepsMeasure, BpCover
 VARIABLE fn
 Site(p) == <<p[1], p[2]>>
 SiteSet(q) == {Site(q[i]) : i \in 1..Len(q)}
@@ -15,6 +16,10 @@ CoverExpected(e) ==
     CASE e.model = "ctm" -> Support(CtmAfter(Site(e.dims), e.k)[Site(e.site)][e.dn])
       [] e.model = "bm" -> Support(BmCov(Site(e.dims), <<e.n, e.dn>>))
       [] e.model = "ntu" -> ClusterSites(Site(e.dims), e.which, e.dirn, Site(e.site))
+      [] e.model = "bp" -> LET dd == Site(e.dims)                                     \* messages after e.k sweeps of update_ in the recorded order of single updates
+                               EE == {{Site(e.E[i][1]), Site(e.E[i][2])} : i \in 1..Len(e.E)}
+                               sq == [i \in 1..Len(e.seq) |-> <<Site(e.seq[i][1]), Site(e.seq[i][2])>>] IN
+                           Support(Sweeps(dd, EE, BpEye(dd), sq, e.k)[Site(e.site)][e.dn])
 OkE(e) == CASE e.op = "measure" -> LET F == fn[e.src] IN e.den = Norm2F(F) /\ ObsOk(e, OpExp(OpOf(e), F, e.gr))
             [] e.op = "evolve" -> e.integral /\ Vec(e.ent) = ApplyOp(OpOf(e), reg[e.src], e.gr) /\ e.terr <= TolTrunc /\ e.nonherm <= TolMetric /\ e.mineig >= -TolMetric
             [] e.op = "metric" -> e.nonherm <= TolMetric /\ e.mineig >= -TolMetric
